@@ -112,6 +112,8 @@ bool File::open(const String& name, File::OpenMode mode)
 {
 	if(name == "")
 		return false;
+	if(_file) // reopening: do not leak the old handle with what it has not flushed yet
+		close();
 	const CHART* fopen_mode;
 	if(!(mode & TEXT))
 	{
